@@ -111,7 +111,8 @@ package badger
 //@   invariant loop 1: sameslice(maxVersionKey, vctx.MaxVersionKey(curTK).0)
 
 // DeleteRange: every delete issued into a batch is committed before a successful return
-// (ghost pending = deletes in the current, not yet committed batch).
+// (ghost pending = deletes in the current, not yet committed batch), and an error reported by the
+// scanning goroutine (version resolution failure, iterator error) is never turned into success.
 //@ func BadgerDB.DeleteRange
 //@   prop C05
 //@   safety_off
@@ -125,5 +126,21 @@ package badger
 //@   assume at "result := <-ch": numKV < 1000000000000
 //@   assume at "if (numKV+1)%BATCH_SIZE == 0 {": ((numKV + 1) % 1000 == 0) == (pending == 1000)
 //@   assume at "if numKV%BATCH_SIZE != 0 {": (numKV % 1000 == 0) == (pending == 0)
-//@   invariant loop 1: 0 <= numKV && numKV <= 1000000000000 && 0 <= batches && batches <= 1000000000 && 0 <= pending && pending < 1000 && numKV == 1000 * batches + pending
+//@   invariant loop 1: !sawErr && 0 <= numKV && numKV <= 1000000000000 && 0 <= batches && batches <= 1000000000 && 0 <= pending && pending < 1000 && numKV == 1000 * batches + pending
 //@   ensures result == nil && db != nil && ctx != nil ==> pending == 0
+//@   ghost sawErr bool = false
+//@   ghostset at "if result.error != nil {": sawErr = sawErr || result.error != nil
+//@   ensures result == nil && db != nil && ctx != nil ==> !sawErr
+
+// The consumer loops of the range reads: a message carrying an error ends the call with that error - it
+// is never mistaken for the end-of-range marker (C05, C01: a read that could not resolve a key does not
+// silently return a truncated range).
+//@ func BadgerDB.ProcessRange
+//@   prop C05 C01
+//@   safety_off
+//@   calls_havoc
+//@   modifies *
+//@   ghost sawErr bool = false
+//@   ghostset at "if result.error != nil {": sawErr = sawErr || result.error != nil
+//@   invariant loop 1: !sawErr
+//@   ensures result == nil && db != nil && ctx != nil ==> !sawErr
